@@ -158,3 +158,70 @@ func c07r910(p *model.Prog, r *report.Result) {
 		r.Bad("C07.R10", fkey(feed, "keyflag", "floor"), p.Pos(feed.Pos()), fmt.Sprintf("expected the AVC and HEVC frame-type stores, found %d key / %d inter", nKey, nInter))
 	}
 }
+
+// c07r11: a track announced only by a static RTP payload type gets that type's clock rate.
+func c07r11(p *model.Prog, r *report.Result) {
+	r.Rule("C07.R11", "sdp.ParseSdp2LogicContext: where the audio codec is recognised from the static payload type of the m= line (no a=rtpmap encoding name: PCMU 0, PCMA 8, MPA 14), every path from the store of the codec to the end of that media description passes a test that AudioClockRate is non-zero or stores a positive constant into it: with a clock rate of 0 rtpTimestamp2Ms hands RTP ticks on as milliseconds (audio runs eight times too fast)")
+	parse := p.Func("pkg/sdp", "ParseSdp2LogicContext")
+	baseF := p.Field("pkg/sdp", "LogicContext", "audioPayloadTypeBase")
+	rateF := p.Field("pkg/sdp", "LogicContext", "AudioClockRate")
+	unknown, _ := constant.Int64Val(p.Const("pkg/base", "AvPacketPtUnknown").Val())
+	n := 0
+	for _, st := range model.FieldStores(parse, baseF) {
+		k, isK := model.ConstInt(st.Val)
+		if !isK || k == unknown {
+			continue
+		}
+		// recognised from md.M.PT == <const>
+		byPT := model.GuardedBy(st, func(c ssa.Value, pol bool) bool {
+			bo, ok := c.(*ssa.BinOp)
+			if !ok || bo.Op != token.EQL || !pol {
+				return false
+			}
+			f := model.LoadedField(bo.X)
+			_, isC := model.ConstInt(bo.Y)
+			return f != nil && f.Name() == "PT" && isC
+		})
+		if !byPT {
+			continue
+		}
+		n++
+		hdr := loopHeaderOf(parse, st.Block())
+		miss := model.PathQuery{From: st,
+			Stop: func(in ssa.Instruction) bool {
+				s2, ok := in.(*ssa.Store)
+				if !ok || model.FieldOf(s2.Addr) != rateF {
+					return false
+				}
+				v, isC := model.ConstInt(s2.Val)
+				return isC && v > 0
+			},
+			StopEdge: func(b *ssa.BasicBlock, kk int) bool {
+				iff, ok := b.Instrs[len(b.Instrs)-1].(*ssa.If)
+				if !ok {
+					return false
+				}
+				bo, isB := iff.Cond.(*ssa.BinOp)
+				if !isB || !model.IsLoadOfField(bo.X, rateF) {
+					return false
+				}
+				z, isZ := model.ConstInt(bo.Y)
+				if !isZ || z != 0 {
+					return false
+				}
+				// the edge on which the rate is known to be non-zero
+				return (bo.Op == token.EQL && kk == 1) || (bo.Op == token.NEQ && kk == 0) || (bo.Op == token.GTR && kk == 0)
+			},
+			Target: func(in ssa.Instruction) bool {
+				if _, isR := in.(*ssa.Return); isR {
+					return true
+				}
+				// back at the head of the loop over media descriptions: this description is done
+				return hdr != nil && in == hdr.Instrs[0]
+			}}.Find(parse)
+		r.Check(miss == nil, "C07.R11", fkey(parse, "static-pt", fmt.Sprintf("clock-rate|%d", k)), p.InstrPos(st), "clock rate defaulted when the SDP gives none", "an audio codec recognised from its static payload type keeps AudioClockRate 0 when the SDP has no a=rtpmap line for it (what ffmpeg sends for PCMA/PCMU): RTP time stamps are forwarded as if they were milliseconds")
+	}
+	if n < 2 {
+		r.Bad("C07.R11", fkey(parse, "static-pt", "floor"), p.Pos(parse.Pos()), fmt.Sprintf("only %d codec stores recognised from the static payload type", n))
+	}
+}
